@@ -32,6 +32,8 @@
 (*          the double sum over the stored currents, in 1/1000 of the      *)
 (*          tolerance.                                                     *)
 (*                                                                         *)
+(* `restart` events mark the end of the thermalisation stage (the next      *)
+(* update is called with step 0 again); they bind StageRestart.            *)
 (* Test (top of the screening loop) has no observable call and is a silent *)
 (* step.  A raise is the `raise` event that follows the action which made  *)
 (* pc = "raised".                                                          *)
@@ -50,7 +52,7 @@ Rels == SeqToSet(Ev.rels)
 Exact == T.mode = "exact"
 Flags == T.mode = "flags"
 
-CfgOf(tr) == [adaptive |-> tr.cfg.adaptive, screening |-> tr.cfg.screening, window |-> tr.cfg.window,
+CfgOf(tr) == [thermal |-> tr.cfg.thermal, adaptive |-> tr.cfg.adaptive, screening |-> tr.cfg.screening, window |-> tr.cfg.window,
               retries |-> tr.cfg.retries, mulexp |-> tr.cfg.mulexp, inite |-> tr.cfg.inite, maxe |-> tr.cfg.maxe,
               maxiter |-> tr.cfg.maxiter, tolexp |-> tr.cfg.tolexp, alphaexp |-> tr.cfg.alphaexp,
               betaq |-> tr.cfg.betaq]
@@ -75,8 +77,9 @@ XInduced == /\ IsEv("induced") /\ InducedWith(Pair(Ev.k))
 XFinish == /\ IsEv("return") /\ Finish /\ dt = Ev.dt /\ tent' = Ev.tent
            /\ (Screening => s = Ev.iters) /\ Aind = Pair(Ev.a) /\ UNCHANGED obs
 XRaise == /\ IsEv("raise") /\ pc = "raised" /\ why = Ev.why /\ pc' = "dead"
-          /\ UNCHANGED <<cfg, step, s, retries, nref, why, conv, prevconv, kcalls, nvars, obs>>
-XNext == XBegin \/ XLinks \/ XRefuse \/ XAnswer \/ XInduced \/ XFinish \/ XRaise \/ Silent(Test)
+          /\ UNCHANGED <<cfg, stage, step, s, retries, nref, why, conv, prevconv, kcalls, nvars, obs>>
+XRestart == /\ IsEv("restart") /\ StageRestart /\ UNCHANGED obs
+XNext == XRestart \/ XBegin \/ XLinks \/ XRefuse \/ XAnswer \/ XInduced \/ XFinish \/ XRaise \/ Silent(Test)
 
 -----------------------------------------------------------------------------
 (* flags mode: control parts + relation flags *)
@@ -84,7 +87,10 @@ XNext == XBegin \/ XLinks \/ XRefuse \/ XAnswer \/ XInduced \/ XFinish \/ XRaise
 NeedDt == IF retries > 0 THEN "mult" ELSE IF s = 0 THEN "tent" ELSE "keep"
 DtObs == [ObsOk EXCEPT !.pos = Ev.pos, !.lemax = Ev.lemax, !.isinit = Ev.isinit]
 
-FBegin == /\ IsEv("begin") /\ BeginCtl /\ step = Ev.step /\ obs' = ObsOk /\ UNCHANGED nvars
+\* every update but the first of the run starts from what the previous one returned (also across the stage restart)
+FirstUpdate == step = 0 /\ stage = (IF cfg.thermal THEN 1 ELSE 2)
+FBegin == /\ IsEv("begin") /\ BeginCtl /\ step = Ev.step /\ (FirstUpdate \/ "carried" \in Rels)
+          /\ obs' = ObsOk /\ UNCHANGED nvars
 FLinks == /\ IsEv("links") /\ LinksCtl /\ "iterate" \in Rels /\ obs' = ObsOk /\ UNCHANGED nvars
 FRefuse == /\ IsEv("attempt") /\ Ev.refused /\ RefuseCtl /\ NeedDt \in Rels /\ obs' = DtObs /\ UNCHANGED nvars
 FAnswer == /\ IsEv("attempt") /\ ~Ev.refused /\ AnswerCtl /\ NeedDt \in Rels /\ obs' = DtObs /\ UNCHANGED nvars
@@ -96,12 +102,13 @@ FFinish == /\ IsEv("return") /\ FinishCtl
            /\ (Screening => s = Ev.iters)
            /\ obs' = [DtObs EXCEPT !.azero = Ev.azero] /\ UNCHANGED nvars
 FRaise == /\ IsEv("raise") /\ pc = "raised" /\ why = Ev.why /\ pc' = "dead" /\ obs' = ObsOk
-          /\ UNCHANGED <<cfg, step, s, retries, nref, why, conv, prevconv, kcalls, nvars>>
+          /\ UNCHANGED <<cfg, stage, step, s, retries, nref, why, conv, prevconv, kcalls, nvars>>
 \* a frame read back from the output file after the run
 FFrame == /\ IsEv("frame") /\ pc \in {"begin", "dead"}
           /\ obs' = [ObsOk EXCEPT !.frame = TRUE, !.mism = Ev.mism, !.azero = Ev.azero]
           /\ UNCHANGED vars
-FNext == FBegin \/ FLinks \/ FRefuse \/ FAnswer \/ FInduced \/ FFinish \/ FRaise \/ FFrame
+FRestart == /\ IsEv("restart") /\ StageRestartCtl /\ obs' = ObsOk /\ UNCHANGED nvars
+FNext == FRestart \/ FBegin \/ FLinks \/ FRefuse \/ FAnswer \/ FInduced \/ FFinish \/ FRaise \/ FFrame
          \/ Silent(TestCtl /\ UNCHANGED nvars)
 
 TNext == (Exact /\ XNext) \/ (Flags /\ FNext)
